@@ -22,7 +22,7 @@ def c13(tier):
     ck = Check("C13", tier, "exploration")
     exe = build.build("plain")
     full = tier == "thorough"
-    core.run_vh(exe, ["eval-mirror", "--roots", roots(ck), "--games", 3000 if full else 160, "--maxply", 150, "--per-class", 1500 if full else 120,
+    core.run_vh(exe, ["eval-mirror", "--roots", roots(ck), "--games", 3000 if full else 160, "--maxply", 150, "--per-class", 1500 if full else 600,
                       "--shards", 48 if full else 16, "--out", ck.work, "--stem", "mir", "--seed", core.seed()], timeout=3000)
     shards = shards_of(ck, "mir")
     viols, cnt, st = core.validate_shards(shards, module="EvalTrace.tla", cfg="EvalTrace.cfg")
@@ -62,14 +62,15 @@ def c14(tier):
     d_ok = core.tlc_ok(core.tlc("EvalCache.tla", cfg="EvalCache.cfg", workers=4, timeout=600, metadir=os.path.join(ck.work, "md1")), "EvalCache")
     d_bad = core.tlc("EvalCache.tla", cfg="EvalCache_aswritten.cfg", workers=4, timeout=600, metadir=os.path.join(ck.work, "md2"))
     ck.add_states(d_ok["generated"], d_ok["distinct"])
-    ck.cov["design"] = dict(repaired_clear_states=d_ok["distinct"], clear_as_written_violates=d_bad["rc"] != 0,
+    d_part = core.tlc("EvalCache.tla", cfg="EvalCache_partialkey.cfg", workers=4, timeout=600, metadir=os.path.join(ck.work, "md3"))
+    ck.cov["design"] = dict(repaired_clear_states=d_ok["distinct"], clear_as_written_violates=d_bad["rc"] != 0, partial_key_hit_violates=d_part["rc"] != 0,
                             counterexample="Eval(k) ; Clear ; Eval(0) with k # 0 and k mod N = 0")
     # R: the counterexample histories concretised on the real table
     outp = os.path.join(ck.work, "cache.res")
     core.run_vh(exe, ["eval-cache-replay", "--out", outp, "--seed", core.seed(), "--structures", 8 if full else 3], timeout=3000)
     recs = [json.loads(l) for l in open(outp)]
     summ = [r for r in recs if r.get("summary")][0]
-    if summ["zero_slot_structures"] == 0 or summ["collisions"] == 0:
+    if summ["zero_slot_structures"] == 0 or summ["collisions"] == 0 or summ["partial_low32"] == 0 or summ["partial_high32"] == 0:
         raise InfraError("could not concretise the cache histories: %s" % summ)
     for r in recs:
         if not r.get("summary"):
@@ -90,12 +91,14 @@ def c14(tier):
     ck.cov["distinct_nontrivial"] = summ["histories"] + cnt["fresh_cmp"]
     ck.cov["rule"] = ("(1) design level: EvalCache.tla, all histories of <= 6 Eval/Clear operations over 8 keys and 4 slots (exhaustive); (2) its counterexample shapes concretised "
                       "on the real 2^18-slot table: pawn structures whose pawn key has zero low bits and pairs of structures colliding in one slot are found by search in this "
-                      "process, then Eval/Clear/Eval histories are run on a new evaluator and every value compared with a fresh evaluator; (3) streams: a long-lived evaluator "
+                      "process, as are pairs of different structures whose pawn keys agree in the low or in the high 32 bits (birthday search; a table comparing only part of the key "
+                      "confuses them), then Eval/Clear/Eval histories are run on a new evaluator and every value compared with a fresh evaluator; (3) streams: a long-lived evaluator "
                       "with clear() interleaved against a fresh evaluator every 4th evaluation and on every pawnless position, over games and every endgame class; every value "
                       "must lie strictly inside the non-mate range. distinct_nontrivial = cache histories + comparisons against a fresh evaluator")
     ck.cov["cache_histories"] = summ["histories"]
     ck.cov["zero_slot_structure_example"] = summ["sample_zero"]
     ck.cov["collision_example"] = summ["sample_collision"]
+    ck.cov["partial_key_pairs"] = dict(low32=summ["partial_low32"], high32=summ["partial_high32"])
     ck.cov["evals_per_class"] = {c: cnt.get(c, 0) for c in CLASSES}
     ck.cov["monitor_counters"] = {k: cnt[k] for k in ("evals", "fresh_cmp", "clears", "pawnless_after_clear")}
     ck.sample(dict(history=["eval " + summ["sample_zero"], "clear", "eval r3k3/8/8/8/8/8/8/R3K2R w - - 0 1"]))
